@@ -98,16 +98,19 @@ def grid(ctx, units, rnd):
         lims = set()
         for X in (T, P):
             mx = model.int_range(X)[1]
-            lims |= {mx - 1, mx, mx + 1, isqrt(mx) - 1, isqrt(mx), isqrt(mx) + 1, mx // 2, mx // 2 + 1}
+            lims |= {mx - 1, mx, mx + 1, isqrt(mx) - 1, isqrt(mx), isqrt(mx) + 1, isqrt(mx) + 2, mx // 2, mx // 2 + 1}
+        # numerator AND denominator next to a limit (l-1)/l, l/(l-1): the product of two values of T
+        # need not fit the promoted type (uint16_t promotes to a SIGNED 32-bit int)
+        core = {model.int_range(T)[1], isqrt(model.int_range(P)[1]) + 1, isqrt(model.int_range(P)[1]) + 2}
         lims = sorted(l for l in lims if l >= 2)
         if not ctx.thorough:
-            lims = [l for l in lims if rnd.random() < 0.6]
+            lims = [l for l in lims if l in core or rnd.random() < 0.6]
         for l in lims:
             add(T, l, 1, "limit")
             add(T, 1, l, "limit")
             add(T, l, 3 if l % 3 else 2 if l % 2 else 5, "limit")
             add(T, 3 if l % 3 else 2 if l % 2 else 5, l, "limit")
-            if ctx.thorough:
+            if ctx.thorough or l in core:
                 add(T, l, l - 1, "limit")
                 add(T, l - 1, l, "limit")
     # (d) large primes
@@ -465,7 +468,10 @@ def float_clause(ctx, rnd):
                                       % (t, float(x), f, r["fconv"], t), "cell %r" % cell)
                         ok = False
                 else:
-                    if abs(x) * fe < mx * (1 - Fraction(1, 2 ** 20)):
+                    # "safely below": the library pulls its bound back by one epsilon of the rep and
+                    # rounds twice on the way; sixteen epsilons of the rep is a generous allowance
+                    eps = Fraction(1, 2 ** (23 if t == "float" else 52))
+                    if abs(x) * fe < mx * (1 - 16 * eps):
                         ctx.violation(key + "|overflow-false-positive", "will_conversion_overflow is TRUE for %s x=%r although |x| times %s is safely below the largest finite value" % (t, float(x), f), "cell %r" % cell)
                         ok = False
                 ndis += ok
